@@ -127,6 +127,9 @@ def run(chk: Check):
     model_family(chk, da)
     # corpus: F7a
     run_program(chk, da, ("reduce", "sum", ("src", 0), None, False, None), [(np.arange(10, dtype="int64"), ((5, 5),))], None)
+    for _ in range(1500 if chk.tier == "thorough" else 250):
+        prog, sources, want = progs.misaligned_take(chk.rng)
+        run_program(chk, da, prog, sources, want)
     n = 3000 if chk.tier == "thorough" else 150
     for prog, sources, want in progs.gen_programs(chk.rng, n, ops=progs.CORE_OPS, depth_choices=(1, 2, 3, 4)):
         run_program(chk, da, prog, sources, want)
